@@ -210,6 +210,11 @@ func combineTypes(types []*Type) *Type {
 	combinedT := types[0]
 	for _, t := range types[1:] {
 		if combinedT.Equals(t) {
+			if t.Fixed {
+				// An element with the type of a variable makes the
+				// combined type fixed, whichever element comes first.
+				combinedT = t
+			}
 			continue
 		}
 		// types are not equal, ensure that composite types can be combined
